@@ -893,7 +893,7 @@ func runC16(c *hc.Ctx) error {
 	var buf bufferedCases
 	c.Sum.Rule = "documents = the built-in documents (whole, unmutated), and their 3-matrix prefixes, the test document and 4 synthetic documents covering every optional member and the 3 CRS forms, each with 1-3 structural mutations (delete member / array element, change type, change value from pools of boundary numbers and strings, insert / duplicate array element, duplicate key, add or replace a CRS form, add a member) plus the systematic single replacement of every member of the kitchen-sink document by every pool value; distinct = distinct document text; non-trivial = mutated and (decodes, or fails for a reason other than a missing crs/tileMatrices)"
 	c.Sum.Oracle = "on the implementation (json.Unmarshal / json.Marshal of tms20.TileMatrixSet, panics recovered): never a panic; a document that an independent schema check (types, presence, positive integer sizes, 2-element points, integer-like ids, a CRS in one of three forms) calls malformed is rejected with an error; an accepted document d satisfies decode(encode(decode d)) = decode d (reflect.DeepEqual with nil and empty slices identified) and encode is byte-stable; built-in documents re-encode semantically equal (keys unordered, numbers by float64 value) to the original"
-	c.Sum.Partial = "the general round-trip theorem carries the hypothesis that unsigned members are exactly representable (violated only through F6b); C16_refuted_* theorems state what the code as it stands gets wrong (F6b, F6c); values are compared with nil and empty slices identified"
+	c.Sum.Partial = "decode_encode_decode carries the hypothesis that unsigned members survive printing and reading (tms_stable; implied by all sizes < 2^53; violated only through F6b); decode_total and nonpositive_rejected hold in the _partial form stated (no point array longer than 2; zero / truncating-to-zero sizes and non-positive cell sizes), their full forms are refuted by C16_refuted_* (F6b, F6c); values are compared with nil and empty slices identified (norm_tms)"
 	c.Sum.TrustedBase = []string{
 		"text -> tree: encoding/json syntax check and easyjson lexer (the model starts from the JSON tree; strings are byte strings, valid UTF-8 only)",
 		"strconv.ParseFloat is correctly rounded and strconv's shortest formatting round-trips (model: numbers kept as the decimals of the document, compared by their binary64 image f64)",
